@@ -954,3 +954,48 @@ Proof.
     apply disj_sym in A. apply disj_sym in B. now apply indep_pair.
   - now apply IH.
 Qed.
+
+(* ------------------------------------------------------------------ document-level corollaries *)
+Lemma done_perm_docs (d d' : list instr) s : Permutation d d' -> run (compile d) = Done s ->
+  exists s', run (compile d') = Done s' /\ Permutation (sX s) (sX s')
+             /\ forall p, lookupP (sP s) p = lookupP (sP s') p.
+Proof.
+  intros HP H. destruct (done_perm _ _ _ (Permutation_map c_instr HP) H) as (s' & A & B & _ & C).
+  exists s'. auto.
+Qed.
+
+Lemma success_iff d d' : Permutation d d' -> ((exists s, run d = Done s) <-> (exists s', run d' = Done s')).
+Proof.
+  intro HP. split; intros [s H].
+  - destruct (done_perm _ _ _ HP H) as (s' & A & _). eauto.
+  - destruct (done_perm _ _ _ (Permutation_sym HP) H) as (s' & A & _). eauto.
+Qed.
+
+Lemma promise_decl d s : run d = Done s ->
+  (forall p o, lookupP (sP s) p = Some o <-> In (p, o) (all_fuls d)) /\
+  (forall a n, In a (shells d) -> In n (a_needs a) -> exists o, lookupP (sP s) n = Some o /\ In (n, o) (all_fuls d)).
+Proof. intro H. split; [exact (promise_map_spec d s H)|exact (done_needs_declared d s H)]. Qed.
+
+(* witness for the sibling-order finding: i1 appends two classes [Ka (super: !promise 2); Kb] to one list,
+   i0 declares promise 2 in another list *)
+Definition PK : str := [1]%N.  Definition a_packages : str := [2]%N.  Definition a_classes : str := [3]%N.
+Definition nG : str := [4]%N.  Definition nKx : str := [5]%N.  Definition nKa : str := [6]%N.
+Definition nKb : str := [7]%N.  Definition a_super : str := [8]%N.
+Definition wit_i0 : instr :=
+  mkInstr (RObj PK) GNil
+    (GCons a_packages (ICons (IObj (Some 1%N) nG [] (GCons a_classes (ICons (IObj (Some 2%N) nKx [] GNil) INil) GNil)) INil) GNil)
+    [] [].
+Definition wit_i1 : instr :=
+  mkInstr (RObj PK) GNil
+    (GCons a_classes (ICons (IObj None nKa [(a_super, SRef (RProm 2%N))] GNil) (ICons (IObj None nKb [] GNil) INil)) GNil)
+    [] [].
+Lemma store_order_witness :
+  exists (d d' : list instr) s s', Permutation d d' /\ no_shared_list d = true /\
+    run (compile d) = Done s /\ run (compile d') = Done s' /\
+    read_list PK a_classes (final_log s) <> read_list PK a_classes (final_log s').
+Proof.
+  exists [wit_i0; wit_i1], [wit_i1; wit_i0].
+  eexists. eexists. split; [apply perm_swap|]. split; [vm_compute; reflexivity|].
+  split; [vm_compute; reflexivity|]. split; [vm_compute; reflexivity|].
+  vm_compute. discriminate.
+Qed.
